@@ -86,3 +86,10 @@ Example ex_fallback :
   final_varname DNone [("m", 7); ("x", 3); ("alias", 7)] 7 = Some "alias" /\
   final_varname (DSome "a") [("m", 7)] 7 = Some "a".
 Proof. split; reflexivity. Qed.
+
+(* the fallback of the code (last local bound to the manager) satisfies the property-level
+   acceptance test the correspondence applies to contexts of suspended frames (kind "fb") *)
+Theorem C08_fallback_accepted : forall d locals obj, d <> DFuel ->
+  fcase_ok (d, locals, obj, final_varname d locals obj) = true.
+Proof. exact final_varname_accepted. Qed.
+Print Assumptions C08_fallback_accepted.
